@@ -140,6 +140,10 @@ func RunShardedFree(scenario string, pb, db, n, maxFree int) (*Result, error) {
 		m.Stats.Aborted += r.Stats.Aborted
 		m.Stats.Divergences += r.Stats.Divergences
 		m.Stats.Stopped = m.Stats.Stopped || r.Stats.Stopped
+		m.Stats.Stuck += r.Stats.Stuck
+		if m.Stats.StuckDump == "" {
+			m.Stats.StuckDump = r.Stats.StuckDump
+		}
 		if r.Stats.MaxSteps > m.Stats.MaxSteps {
 			m.Stats.MaxSteps = r.Stats.MaxSteps
 		}
@@ -190,5 +194,16 @@ func Merge(r *report.R, m *Result) {
 	}
 	for _, s := range m.Samples {
 		r.Sample(s)
+	}
+	if m.Stats.Stuck > 0 {
+		// not a verdict about the property: the search is incomplete
+		d := m.Stats.StuckDump
+		if len(d) > 3000 {
+			d = d[:3000]
+		}
+		r.Incomplete(fmt.Sprintf("scenario %s: %d execution(s) stuck - a thread waited on something the controlled scheduler does not model; their subtrees were not explored", m.Scenario, m.Stats.Stuck))
+		fmt.Fprintf(os.Stderr, "note: %s: %d stuck execution(s); goroutines:\n%s\n", m.Scenario, m.Stats.Stuck, d)
+	} else if m.Stats.Stopped {
+		r.Incomplete(fmt.Sprintf("scenario %s: time budget reached", m.Scenario))
 	}
 }
